@@ -157,6 +157,37 @@ def multi_env_history(ctx):
 
     doc = {"a": ["decoded", 20, 30], "\\u0061": ["literal", 20, 30], "b": {"a": 1, "\\u0061": 2, "c": [1, 2, 3]}, "$": {"x": 5}, "%": {"x": 6}}
     texts = ["$['\\u0061']", "$.b['\\u0061', 'c']", "$..['\\u0061'][0]", "$.b.c[0, 2]", "%['$'].x", "$['%'].x"]
+    class Resolving(jsonpath.JSONPathEnvironment):
+        """Documented hook: getitem() overridden (member names matched case-insensitively)."""
+
+        def getitem(self, obj, key):
+            if isinstance(obj, dict) and isinstance(key, str) and key not in obj:
+                for k in obj:
+                    if isinstance(k, str) and k.lower() == key.lower():
+                        return obj[k]
+            return super().getitem(obj, key)
+
+    hook_doc = {"Title": "T", "maker": {"Name": "N", "id": 1}, "b": {"A": 1, "c": [1, 2, 3]}}
+    hook_texts = ["$.title", "title", "$.maker.name", "$['title', 'maker']", "$.b.a", "$.b.c[0, 2]"]
+    henv = Resolving()
+    for text in hook_texts:
+        for style in ("RELATIVE", "ROOT", "FLAT"):
+            ctx.evaluation()
+            m = next(iter(henv.finditer("$", hook_doc)))
+            sels = [(tuple(x.parts), x.obj) for x in henv.finditer(text, hook_doc)]
+            got = impl.call(lambda: list(jsonpath.Query([m], henv).select(text, projection=getattr(jsonpath.Projection, style))))
+            ctx.count("hooked_environment_projections")
+            if not sels:
+                ok = got.ok and not got.value
+            else:
+                try:
+                    want = expected_by_parts(sels, style)
+                except Exception:  # noqa: BLE001
+                    continue
+                ok = got.ok and len(got.value) == 1 and canon(got.value[0]) == canon(want)
+            if not ok:
+                ctx.violation("projection-differs-from-the-environment's-own-selection:hooked-getitem", {"multi_env": True}, {"text": text, "style": style, "got": got.desc() if not got.ok else canon(got.value)[:300], "selected": repr(sels)[:300]})
+                return
     envs = [("default", jsonpath.JSONPathEnvironment()), ("no-unicode-escape", jsonpath.JSONPathEnvironment(unicode_escape=False)), ("renamed-root", Tok()), ("default-again", jsonpath.JSONPathEnvironment())]
     for order in (envs, list(reversed(envs)), envs):
         for name, env in order:
@@ -186,6 +217,35 @@ def multi_env_history(ctx):
                     if not got.ok or len(got.value) != 1 or canon(got.value[0]) != canon(want):
                         ctx.violation("projection-differs-from-the-environment's-own-selection:%s" % style, case, {"env": name, "text": text, "style": style, "got": got.desc() if not got.ok else canon(got.value)[:300], "expected": canon([want])[:300]})
                         return
+
+
+def expected_by_parts(sels, style):
+    """Projection structure from (parts, value) pairs alone (objects only, or arrays selected by index)."""
+    if style == "FLAT":
+        return [v for _, v in sels]
+    tree = _B()
+    for parts, v in sels:
+        cur = tree
+        inside = False
+        for p in parts[:-1]:
+            if p not in cur:
+                cur[p] = _B()
+            cur = cur[p]
+            if not isinstance(cur, _B):
+                inside = True
+                break
+        if not inside:
+            cur[parts[-1]] = ("value", v)
+
+    def build(node):
+        keys = list(node)
+        if keys and all(isinstance(k, int) for k in keys):
+            return [item(node[k]) for k in sorted(keys)]
+        return {k: item(node[k]) for k in keys}
+
+    def item(n):
+        return build(n) if isinstance(n, _B) else n[1]
+    return build(tree)
 
 
 def gen_rel(r, sub, depth=0):
